@@ -216,6 +216,76 @@ func Gen(w *bufio.Writer, seed uint64, tier string) {
 		}
 		emitX(encs[r.Intn(len(encs))], r.Pick(0, 1, 2, 3, 5), 1+r.Intn(3), sc, r.Pick(0, 1, 1000, 70000, 300000))
 	}
+	// ---- (3b) the upload source fails in the middle of an attempt ------------------------------
+	// script entries f<k>p (permanent: EIO) / f<k>t (io.ErrUnexpectedEOF, classified temporary) make the
+	// reader of that attempt fail after k bytes; sizes below / above the 64 KiB snappy frame and the
+	// 32 KiB io.Copy buffer; k at 0, 1, mid, len-1, len
+	emitF := func(a string, retries, n int, script []string, size int) {
+		fmt.Fprintf(w, "C09 xfault %s %d %d %s %d %d\n", hexs(a), retries, n, strings.Join(script, ","), size, r.Intn(1<<30))
+	}
+	ks := func(size int) []int {
+		out := []int{0}
+		for _, k := range []int{1, size / 2, size - 1, size} {
+			if k > out[len(out)-1] {
+				out = append(out, k)
+			}
+		}
+		return out
+	}
+	faultAccepts := []string{"", "identity", "gzip", "x-snappy-framed", "x-snappy-framed, gzip"}
+	fsizes := []int{200000, 70000, 1000, 0}
+	if thorough {
+		fsizes = []int{0, 1, 2, 1000, 32768, 65536, 65537, 70000, 131072, 200000, 1000000}
+	}
+	for _, a := range faultAccepts {
+		for si, size := range fsizes {
+			for ki, k := range ks(size) {
+				switch (si + ki) % 3 {
+				case 0: // the only attempt fails for good
+					emitF(a, 0, 1, []string{fmt.Sprintf("f%dp", k)}, size)
+				case 1: // temporary fault, the next server is healthy
+					emitF(a, 0, 2, []string{fmt.Sprintf("f%dt", k), "200"}, size)
+				default: // temporary fault on a repeated server list, then a permanent one
+					emitF(a, 3, 1, []string{"503", fmt.Sprintf("f%dt", k), fmt.Sprintf("f%dp", (k+1)/2), "200"}, size)
+				}
+				if thorough {
+					emitF(a, 0, 1, []string{fmt.Sprintf("f%dt", k)}, size)
+					emitF(a, 0, 3, []string{fmt.Sprintf("f%dt", k), fmt.Sprintf("f%dt", k), "201"}, size)
+				}
+			}
+		}
+	}
+	for i := 0; i < pick(40, 800); i++ {
+		size := r.Pick(0, 1, 1000, 65536, 70000, 140000, 300000)
+		var sc []string
+		for k := 1 + r.Intn(5); k > 0; k-- {
+			if r.Intn(2) == 0 {
+				kk := 0
+				if size > 0 {
+					kk = r.Pick(0, 1, size/2, size-1, size, r.Intn(size+1))
+				}
+				sc = append(sc, fmt.Sprintf("f%d%s", kk, []string{"p", "t", "t"}[r.Intn(3)]))
+			} else {
+				sc = append(sc, outcomes[r.Intn(len(outcomes))])
+			}
+		}
+		emitF(faultAccepts[r.Intn(len(faultAccepts))], r.Pick(0, 2, 3), 1+r.Intn(3), sc, size)
+	}
+	// damaged compressed streams, response side (caller must see an error) and request side (server must refuse)
+	for _, enc := range []string{"gzip", "x-snappy-framed"} {
+		for _, kind := range []string{"cutmid", "cut1", "notail", "flip"} {
+			for _, size := range []int{1, 1000, 150000} {
+				fmt.Fprintf(w, "C09 xresp %s %s %d %d\n", enc, kind, size, r.Intn(1<<30))
+				fmt.Fprintf(w, "C09 xraw %s %s %d %d\n", enc, kind, size, r.Intn(1<<30))
+			}
+		}
+	}
+	for _, enc := range []string{"-", "gzip", "x-snappy-framed"} {
+		for _, size := range []int{0, 1000, 65536, 150000} {
+			fmt.Fprintf(w, "C09 xraw %s clshort %d %d\n", enc, size, r.Intn(1<<30))
+		}
+	}
+
 	// listeners really closed: connection refused through the real transport
 	for k := 0; k <= 3; k++ {
 		for _, m := range []int{k, k + 1, k + 2} {
